@@ -437,6 +437,9 @@ func (p *pump) forget(s *subState) {
 func (p *pump) run(subs []*subState, done func() bool, what string) {
 	deadline := time.After(20 * time.Second)
 	for {
+		// read "the call has returned" BEFORE looking at the counters: once it has returned, published is
+		// final, so an idle verdict computed afterwards cannot be stale
+		finished := done()
 		p.mu.Lock()
 		idle := true
 		for _, s := range subs {
@@ -445,7 +448,7 @@ func (p *pump) run(subs []*subState, done func() bool, what string) {
 			}
 		}
 		p.mu.Unlock()
-		if idle && done() {
+		if idle && finished {
 			return
 		}
 		cases := make([]reflect.SelectCase, 0, len(subs)+2)
